@@ -90,10 +90,23 @@ func c14Case(o *Out, r *Rng) {
 	var doc strings.Builder
 	var acts []T
 	nExt := 0
+	definedRoot := ""
 	add := func(text string, act T) { doc.WriteString(text); acts = append(acts, act) }
 	n := 1 + r.Intn(4)
 	for i := 0; i < n; i++ {
-		switch c := r.Intn(10); {
+		switch c := r.Intn(12); {
+		case c >= 10:
+			// a type with the default name of an operation root the schema in force does not have
+			rootName := Pick(r, []string{"Mutation", "Subscription"})
+			taken := strings.Contains(doc.String(), "type "+rootName+" ")
+			for _, d := range base.defs {
+				taken = taken || d.name == rootName
+			}
+			if taken {
+				continue
+			}
+			add(fmt.Sprintf("type %s { bump%d: Int }\n", rootName, i), N("define", S(rootName)))
+			definedRoot = rootName
 		case c < 3:
 			add(fmt.Sprintf("enum NewE%d { A B }\n", i), N("define", S(fmt.Sprintf("NewE%d", i))))
 		case c < 5:
@@ -163,7 +176,9 @@ func c14Case(o *Out, r *Rng) {
 		pos := 0
 		for _, line := range strings.SplitAfter(doc.String(), "\n") {
 			pos += len(line)
-			if pos <= at && line != "" {
+			// a definition is complete once its last byte before the newline has been delivered (readSchema assigns
+			// root.schema as soon as the closing brace is consumed)
+			if pos-1 <= at && line != "" {
 				scanned++
 			}
 		}
@@ -182,6 +197,9 @@ func c14Case(o *Out, r *Rng) {
 	same := before == after
 	// a later valid load behaves as if the failed one had never happened
 	follow := "type Later { z: Int }\n"
+	if definedRoot != "" && r.Bool() {
+		follow = "type " + definedRoot + " { reset: Int }\n"
+	}
 	e1, e2 := safeParse(root, follow), safeParse(control, follow)
 	laterSame := (e1 == nil) == (e2 == nil) && c14Snap(root) == c14Snap(control)
 	o.Count("failure=" + class)
